@@ -738,7 +738,7 @@ fn gen11_interleave(seed: u64) -> WorldCase {
 // ---------------------------------------------------------------------------------------------
 
 /// (text, every evaluation reads the clock)
-const CLOCK_TEXTS: [(&str, bool); 44] = [
+const CLOCK_TEXTS: [(&str, bool); 47] = [
     ("now()", true),
     ("timestamp()", true),
     ("now() - timestamp(0)", true),
@@ -785,6 +785,10 @@ const CLOCK_TEXTS: [(&str, bool); 44] = [
     ("[1, 2].reduce(acc, v, acc, now())", true),
     ("[[1]].map(v, v.map(w, now()))", true),
     ("{'a': [1].map(v, {'t': timestamp()})}", true),
+    // a null argument selects the clock-reading constructor as well
+    ("timestamp(null)", true),
+    ("[timestamp(null), 1]", true),
+    ("coalesce(x1, timestamp(null))", false),
 ];
 
 /// wrappers the constant folder could evaluate if their argument were constant
